@@ -127,7 +127,11 @@ def run_by_path(case):
         full = os.path.join(tmp, rel)
         os.makedirs(os.path.dirname(full), exist_ok=True)
         shutil.copyfile(os.path.join(fc.REPO, "cij", "data", "constraints", case["system"]), full)
-        if case["variant"] == "userfile-rel":
+        if case["variant"] == "userfile-dot":
+            # the file lies IN the working directory, is named like a packaged system and is given as a PATH: "./name", "./sub/../name"
+            os.makedirs(os.path.join(tmp, "sub"), exist_ok=True)
+            os.chdir(tmp); arg = case["dot_arg"]
+        elif case["variant"] == "userfile-rel":
             os.chdir(tmp); arg = rel
         else:
             arg = full
@@ -226,14 +230,15 @@ def oracle(case, impl=None):
         base = fc.run_impl(case["base_columns"], case["base_values"], system, kw)
         kind = case["variant"]
         site = {"int": SITE_INT, "cwd": SITE_UNBOUND, "userfile": SITE_UNBOUND, "userfile-named": "c09:variant:userfile-named",
-                "userfile-rel": "c09:variant:userfile-by-path", "userfile-abs": "c09:variant:userfile-by-path"}.get(kind, f"c09:variant:{kind}")
+                "userfile-rel": "c09:variant:userfile-by-path", "userfile-abs": "c09:variant:userfile-by-path",
+                "userfile-dot": "c09:variant:userfile-dot"}.get(kind, f"c09:variant:{kind}")
         if kind == "cwd":
             impl = run_case(case, cwd_dir=system)
         elif kind == "userfile":
             impl = run_case(case, user_file=True)
         elif kind == "userfile-named":
             impl = run_case(case, user_file=case["user_file_name"])
-        elif kind in ("userfile-rel", "userfile-abs"):
+        elif kind in ("userfile-rel", "userfile-abs", "userfile-dot"):
             impl = run_by_path(case)
         st = impl["status"]
         if st != base["status"]:
@@ -466,6 +471,10 @@ def gen_variant_cases(rng, n_per_system):
                               path_dirs=dirs, path_name=other2))
             cases.append(dict(base, variant="userfile-abs" if t % 2 == 0 else "userfile-rel", columns=bcols, values=bvals,
                               path_dirs=["constraints"], path_name=other))
+            # ... and IN the working directory, given as a path with a directory part: "./cubic" is a path, not the system `cubic`
+            other3 = [x for x in fc.SYSTEMS if x != system][int(rng.integers(0, len(fc.SYSTEMS) - 1))]
+            cases.append(dict(base, variant="userfile-dot", columns=bcols, values=bvals, path_dirs=[], path_name=other3,
+                              dot_arg=("./" + other3) if t % 2 == 0 else ("./sub/../" + other3)))
     return cases
 
 
@@ -617,9 +626,9 @@ def gen_fixed_cases():
 # ----------------------------------------------------------------------------- run
 def model_for(case):
     fam = case["family"]
-    exists = fam == "variant" and case["variant"] in ("cwd", "userfile", "userfile-named", "userfile-rel", "userfile-abs")
+    exists = fam == "variant" and case["variant"] in ("cwd", "userfile", "userfile-named", "userfile-rel", "userfile-abs", "userfile-dot")
     user_rows = None
-    if fam == "variant" and case["variant"] in ("userfile", "userfile-named", "userfile-rel", "userfile-abs"):
+    if fam == "variant" and case["variant"] in ("userfile", "userfile-named", "userfile-rel", "userfile-abs", "userfile-dot"):
         user_rows = []
         for co, rhs in fc.file_rows(case["system"]):
             den = 1
@@ -629,6 +638,8 @@ def model_for(case):
     sysname = (case.get("user_file_name") or "my_relations.txt") if user_rows is not None else case["system"]
     if fam == "variant" and case["variant"] in ("userfile-rel", "userfile-abs"):
         sysname = "/".join((["/scratch"] if case["variant"] == "userfile-abs" else []) + list(case["path_dirs"]) + [case["path_name"]])
+    if fam == "variant" and case["variant"] == "userfile-dot":
+        sysname = case["dot_arg"]
     return model_op_kw(case["columns"], case["values"], sysname, case.get("kw"), exists=exists, user_rows=user_rows)
 
 
@@ -676,9 +687,10 @@ def evaluate(ctx: Ctx, res: Result, cases):
             count(d, "supplied_all_zero_columns", "cases")
             count(d, "supplied_all_zero_columns", "symmetry_allowed", len(case["zero"]["allowed"]))
             count(d, "supplied_all_zero_columns", "symmetry_forbidden", len(case["zero"]["forbidden"]))
-        if case.get("variant") in ("userfile-rel", "userfile-abs", "userfile-named"):
+        if case.get("variant") in ("userfile-rel", "userfile-abs", "userfile-named", "userfile-dot"):
             count(d, "relations_by_path_named_like_a_packaged_system",
-                  {"userfile-rel": "relative", "userfile-abs": "absolute", "userfile-named": "absolute"}[case["variant"]])
+                  {"userfile-rel": "relative", "userfile-abs": "absolute", "userfile-named": "absolute",
+                   "userfile-dot": "in_cwd_given_as_./name"}[case["variant"]])
         if "drop_atol" in kw and kw["drop_atol"] != 1e-8: count(d, "nondefault_tolerances", "library_drop_atol")
         if "residual_atol" in kw and kw["residual_atol"] != 0.1: count(d, "nondefault_tolerances", "library_residual_atol")
         if "midmag" in case: count(d, "nondefault_tolerances", "component_between_the_tolerances")
